@@ -16,7 +16,7 @@ SCRATCH = Path("/var/tmp/seedall")
 
 ap = argparse.ArgumentParser()
 ap.add_argument("--workers", type=int, default=4)
-ap.add_argument("--extra", default="C09-h:C20,C12-f:C11,C02-e:C11,C04-f:C03,C05-h:C03,C10-c:C20,C19-f:C13,C03-i:C04,C09-j:C03,C10-i:C05,C10-j:C20,C12-g:C11,C14-h:C19,C15-j:C17,C04-l:C01,C08-l:C07,C09-l:C04,C11-l:C01",
+ap.add_argument("--extra", default="C09-h:C20,C12-f:C11,C02-e:C11,C04-f:C03,C05-h:C03,C10-c:C20,C19-f:C13,C03-i:C04,C09-j:C03,C10-i:C05,C10-j:C20,C12-g:C11,C14-h:C19,C15-j:C17,C04-l:C01,C08-l:C07,C09-l:C04,C11-l:C01,C05-n:C01,C10-m:C03,C13-l:C01,C09-m:C05",
                 help="changes that are (also) run against the check that owns the changed code")
 ap.add_argument("ids", nargs="*")
 a = ap.parse_args()
